@@ -10,5 +10,6 @@ func init() {
 		gfSpec{Pkg: "./pkg/core/native", Recv: "NEO", Func: "SetGASPerBlock", Lean: "neoSetGASPerBlock", Sink: "n.putGASRecord"},
 		gfSpec{Pkg: "./pkg/core/native", Recv: "Management", Func: "setMinimumDeploymentFee", Lean: "managementSetMinimumDeploymentFee", Sink: "ic.DAO.PutStorageItem"},
 		gfSpec{Pkg: "./pkg/core/native", Recv: "Designate", Func: "getRole", Lean: "designateGetRole"},
+		gfSpec{Pkg: "./pkg/core/native", Recv: "NEO", Func: "CheckAlmostFullCommittee", Lean: "neoCheckAlmostFullCommittee", Sink: "smartcontract.CreateMultiSigRedeemScript"},
 	)
 }
